@@ -539,6 +539,25 @@ class Blockwise(Expr):
         if self._projection_passthrough and isinstance(parent, Projection):
             return plain_column_projection(self, parent, dependents)
 
+    def _select_partitions(self, partitions):
+        """Push a selection of output partitions into the dependencies
+
+        Returns an expression equivalent to ``Partitions(self, partitions)``.
+        This default requires that the task of output partition ``i`` only
+        reads partition ``i`` of the dependencies and is the same for every
+        ``i``. Other subclasses have to override this method; returning
+        ``None`` keeps the selection on top of the expression.
+        """
+        operands = [
+            (
+                Partitions(op, partitions)
+                if (isinstance(op, Expr) and not self._broadcast_dep(op))
+                else op
+            )
+            for op in self.operands
+        ]
+        return type(self)(*operands)
+
 
 class MapPartitions(Blockwise):
     _parameters = [
@@ -2772,15 +2791,7 @@ class Partitions(Expr):
         if isinstance(self.frame, Blockwise) and not isinstance(
             self.frame, (BlockwiseIO, Fused, SetIndexBlockwise)
         ):
-            operands = [
-                (
-                    Partitions(op, self.partitions)
-                    if (isinstance(op, Expr) and not self.frame._broadcast_dep(op))
-                    else op
-                )
-                for op in self.frame.operands
-            ]
-            return type(self.frame)(*operands)
+            return self.frame._select_partitions(self.partitions)
         elif isinstance(self.frame, PartitionsFiltered):
             if self.frame._partitions:
                 partitions = [self.frame._partitions[p] for p in self.partitions]
